@@ -163,6 +163,21 @@ fn check_stream_tetraplets(cx: &Cx, peer: usize, rq: ReqId, this: &mut C17) -> V
     }
     let Some(I::Call { args, .. }) = site else { return out };
     let name_to_id = |n: &str| cx.world.ids.get(n).cloned().unwrap_or_default();
+    // names bound to a whole canonical value: the canon's own result (#c, #%c, scalar of `canon P %m x`) and scalars it
+    // was copied into with `ap`; such a value carries the tetraplet of the peer the canon instruction designates
+    let mut canon_peer: BTreeMap<String, String> = BTreeMap::new();
+    script::walk(&cx.world.script.ast, &mut |x| {
+        if let I::Canon { peer: script::PeerRef::Name(p), dst, .. } = x {
+            canon_peer.insert(dst.clone(), name_to_id(p));
+        }
+    });
+    script::walk(&cx.world.script.ast, &mut |x| {
+        if let I::Ap { src: script::Arg::Canon(c) | script::Arg::CanonMap(c), dst } = x {
+            if let Some(p) = canon_peer.get(c).cloned() {
+                canon_peer.insert(dst.clone(), p);
+            }
+        }
+    });
     for (i, a) in args.iter().enumerate() {
         let val: Value = serde_json::from_str(&r.args[i]).unwrap_or(Value::Null);
         let tets = &r.tetraplets[i];
@@ -217,6 +232,28 @@ fn check_stream_tetraplets(cx: &Cx, peer: usize, rq: ReqId, this: &mut C17) -> V
                     if (t.0.clone(), t.1.clone(), t.2.clone()) != (exp.0.clone(), exp.1.clone(), exp.2.clone()) {
                         out.push(viol("C17/canon-lens-tetraplet", format!("({} {}) argument {i}: tetraplet {t:?}, expected producer {exp:?}", r.service, r.function)));
                     }
+                }
+            }
+            script::Arg::CanonMapLens(c, path) if canon_peer.contains_key(c) => {
+                // `#%c.$.key`: the group of one key, attributed to the canonicalizing peer, lens = the path
+                this.args_checked += 1;
+                let exp = (canon_peer[c].clone(), String::new(), String::new(), format!(".${path}"));
+                if exp.0 != cx.world.peers[peer].id {
+                    this.foreign_producer_args += 1;
+                }
+                if tets.len() != 1 || tets[0] != exp {
+                    out.push(viol("C17/whole-canon-tetraplet", format!("({} {}) argument {i} (`{c}.${path}`): tetraplets {tets:?}, expected [{exp:?}] (the peer that canonicalized)", r.service, r.function)));
+                }
+            }
+            script::Arg::Var(x) if canon_peer.contains_key(x) => {
+                // a scalar holding a whole canonical stream / map
+                this.args_checked += 1;
+                let exp = (canon_peer[x].clone(), String::new(), String::new(), String::new());
+                if exp.0 != cx.world.peers[peer].id {
+                    this.foreign_producer_args += 1;
+                }
+                if tets.len() != 1 || tets[0] != exp {
+                    out.push(viol("C17/whole-canon-tetraplet", format!("({} {}) argument {i} (scalar `{x}` holding a canonical value): tetraplets {tets:?}, expected [{exp:?}] (the peer that canonicalized)", r.service, r.function)));
                 }
             }
             script::Arg::Var(_) => {
